@@ -106,6 +106,9 @@ pub enum ObsClass {
     Dup,
 }
 
+/// above this length the observation samples the per-entry callbacks (see `observe`)
+pub const LIGHT_LEN: usize = 8192;
+
 pub struct ObsOpts {
     pub universe: u32,
     /// do the Debug formatting comparison
@@ -209,9 +212,22 @@ pub fn observe(cache: &Cache, opts: &ObsOpts, out: &mut Vec<(ObsClass, String)>)
     }
 
     // entry_size through the real function (callbacks discarded by the caller)
+    // caches beyond LIGHT_LEN entries: the per-entry work that calls back into user code (entry_size,
+    // three lookups per entry) is done for a deterministic sample of entries only; everything that is
+    // pointer chasing (all traversals, the hook walk, recorded sizes) still covers every entry
+    let light = obs.entries.len() > LIGHT_LEN;
+    let stride = if light { obs.entries.len() / 256 } else { 1 };
+    let phase = if light { (obs.cur / 7 + len) % stride } else { 0 };
+    let sampled = |i: usize| !light || i % stride == phase || i < 32 || i + 32 >= len;
     for (i, (k, v)) in cache.iter().enumerate() {
         if i >= obs.entries.len() {
             break;
+        }
+        if !sampled(i) {
+            // same formula as entry_size, read from the fields (no callback); overflow cannot be
+            // represented anyway
+            obs.entries[i].size = std::mem::size_of::<usize>().wrapping_mul(3).wrapping_add(std::mem::size_of::<SimKey>()).wrapping_add(std::mem::size_of::<SimVal>()).wrapping_add(k.heap).wrapping_add(v.heap);
+            continue;
         }
         // a (mutated) cache can pair a key and a value whose sizes do not add up within usize:
         // the real function then panics on overflow in this build; that is a finding, not a crash
@@ -334,6 +350,9 @@ pub fn observe(cache: &Cache, opts: &ObsOpts, out: &mut Vec<(ObsClass, String)>)
         let mut probe = SimKey::new(0, 0);
         let mut bad = 0;
         for (i, e) in obs.entries.iter().enumerate() {
+            if !sampled(i) {
+                continue;
+            }
             let byid = cache.peek_entry(&KeyId(e.id)).map(|(k, v)| (addr(k), addr(v)));
             probe.id = KeyId(e.id);
             let owned = if i % 2 == 0 {
